@@ -5,7 +5,7 @@
    rejects a clause.  Output markers: [-2] panic, [-5] recursion fuel exhausted, [-9] outside the
    modelled fragment (only a String -> Float/Double conversion with an exponent beyond +-400). *)
 From Coq Require Import List ZArith Bool.
-From OV Require Import C39.Values C39.Like C39.Model C39.Safety C39.LikeProofs C39.RefProofs C39.Proofs.
+From OV Require Import C39.Values C39.Like C39.Model C39.Safety C39.LikeProofs C39.LikeTotal C39.RefProofs C39.Proofs.
 Import ListNotations.
 Open Scope Z_scope.
 
@@ -58,6 +58,22 @@ Theorem C39_like : forall p s,
   like_model true (like_print p) s = Some (like_spec p s).
 Proof. exact like_fixed_is_spec. Qed.
 Print Assumptions C39_like.
+
+(* whatever the pattern (malformed, with _, any characters), the text the repaired translation emits
+   is a valid regular expression of the modelled subset: the LIKE model is total, and the regex
+   crate is only ever given ^, literal or escaped characters, `.*`, `?`, simple classes and $ *)
+Theorem C39_like_total : forall pat t,
+  like_to_regex_fixed pat = Some t -> exists anchored items, re_parse t = RParsed anchored items.
+Proof. exact like_fixed_total. Qed.
+Print Assumptions C39_like_total.
+
+(* And / Or / Not are the three-valued tables of Part 4 (null = Empty) *)
+Theorem C39_truth_tables : forall a b,
+  and_vals a b = tri_value (tri_and (tri a) (tri b)) /\
+  or_vals a b = tri_value (tri_or (tri a) (tri b)) /\
+  not_val a = tri_value (tri_not (tri a)).
+Proof. intros a b. repeat split; [apply and_agree | apply or_agree | apply not_agree]. Qed.
+Print Assumptions C39_truth_tables.
 
 (* the property oracle holds on the model's output for every case outside the known class *)
 Theorem C39_oracle : forall c, valid c -> known c = 0 -> oracle c (run c) = true.
